@@ -19,7 +19,12 @@
 (*   scheme/reg/blob.go:blobUploadCancel      Cancel CancelR               *)
 (*   internal/reghttp/http.go:Resp.next       Http: a 500/502/504/429/408  *)
 (*        reply or a connection error is retried (same request, BodyFunc   *)
-(*        called again); any other non 2xx status is final                 *)
+(*        called again); any other non 2xx status is final; every failure  *)
+(*        except 404/416 raises the host's back-off counter (backoffSet),  *)
+(*        and once that reaches the retry limit nothing is retried         *)
+(*   internal/reghttp/http.go:Resp.Close      CloseReset (backoffReset):   *)
+(*        called for every 2xx reply and, in the chunk loop, for every     *)
+(*        reply that is a http response at all                             *)
 (*   scheme/ocidir/blob.go:BlobPut            OCopy OVerify ORename        *)
 (*   server: the upload part of the OCI distribution spec, Serve(c): one   *)
 (*        atomic step per request; c is the server's choice where the spec *)
@@ -29,12 +34,14 @@
 (*   - one unit = one symbol of content; the source is <<1,2,..,len>>, so  *)
 (*     every position is distinguishable; the digest is an ideal hash:     *)
 (*     H(c) = c (algorithms are not modelled; the harness runs both).      *)
-(*   - "500" stands for every status reghttp retries and for connection    *)
-(*     errors; "503" for a status that reghttp does not retry.             *)
+(*   - "500" stands for every status reghttp retries, status 0 for a       *)
+(*     connection error (retried the same way, but not a http response     *)
+(*     when it is final), "503" for a status that reghttp does not retry.  *)
 (*   - the http transport's ContentLength check (body shorter or longer    *)
 (*     than the declared size) is folded into FullBody: the request never  *)
 (*     reaches the server and the identical retries are skipped.           *)
-(*   - back-off delays, the throttle, auth and mirrors are not modelled.   *)
+(*   - back-off delays (time), the throttle, auth and mirrors are not      *)
+(*     modelled; the back-off counters are.                                *)
 (*   - io.ReadFull is one step (short reads of the source are exercised by *)
 (*     the harness only).                                                  *)
 (*   - read errors of the source and context cancellation are not          *)
@@ -63,6 +70,7 @@ VARIABLES
   retD,        \* descriptor returned on success [dig, size]
   \* ------------------------------------------------ reghttp
   req, rsp, ret, tries,
+  boCur, boReset, \* clientHost.backoffCur / backoffReset
   \* ------------------------------------------------ blobPutUploadChunked
   hostChunk,   \* host.BlobChunk (raised by OCI-Chunk-Min-Length)
   bufBytes, bufCap, bufStart, chunkStart, chunkSize, finalChunk, retryCur, chunkURL,
@@ -75,7 +83,7 @@ VARIABLES
   tmpFile      \* ocidir: content of the temp file, or NoFile
 
 cvars == <<putURL, rdPos, readOnce, result, retD>>
-hvars == <<req, rsp, ret, tries>>
+hvars == <<req, rsp, ret, tries, boCur, boReset>>
 lvars == <<hostChunk, bufBytes, bufCap, bufStart, chunkStart, chunkSize, finalChunk, retryCur, chunkURL, hashed>>
 svars == <<blobs, sess, mounted, nPartial, nFault, nEarly, refused, minViol>>
 vars == <<cf, pc, cvars, hvars, lvars, svars, tmpFile>>
@@ -126,7 +134,7 @@ Init ==
   /\ cf \in Confs
   /\ pc = "start"
   /\ putURL = NoURL /\ rdPos = 0 /\ readOnce = FALSE /\ result = "none" /\ retD = [dig |-> NoDig, size |-> 0]
-  /\ req = NoReq /\ rsp = NoReply /\ ret = "" /\ tries = 0
+  /\ req = NoReq /\ rsp = NoReply /\ ret = "" /\ tries = 0 /\ boCur = 0 /\ boReset = 0
   /\ hostChunk = cf.chunk
   /\ bufBytes = <<>> /\ bufCap = 0 /\ bufStart = 0 /\ chunkStart = 0 /\ chunkSize = 0
   /\ finalChunk = FALSE /\ retryCur = 0 /\ chunkURL = NoURL /\ hashed = <<>>
@@ -137,6 +145,13 @@ Init ==
 
 Send(r, cont) == req' = r /\ ret' = cont /\ pc' = "srv" /\ UNCHANGED <<rsp, tries>>
 Fail == result' = "err" /\ pc' = "done"
+\* Resp.Close -> backoffReset: enough closed responses lower the back-off counter again
+Lower == boCur > 0 /\ (boReset + 1 > 5 \/ boCur > HttpRetries)
+CloseReset == /\ boCur' = IF Lower THEN boCur - 1 ELSE boCur
+              /\ boReset' = IF boCur = 0 THEN boReset ELSE IF Lower THEN 0 ELSE boReset + 1
+NoClose == UNCHANGED <<boCur, boReset>>
+Is2xx(st) == st \in {201, 202, 204}
+CloseIf2xx == IF Is2xx(rsp.st) THEN CloseReset ELSE NoClose
 
 \* ------------------------------------------------------------------ BlobPut
 Start ==
@@ -148,7 +163,7 @@ Start ==
 Mount ==
   /\ pc = "mount"
   /\ Send(Request("POST", NoURL, TRUE, 0, <<>>, DDig), "mount_r")
-  /\ UNCHANGED <<cf, cvars, lvars, svars, tmpFile>>
+  /\ UNCHANGED <<cf, cvars, boCur, boReset, lvars, svars, tmpFile>>
 
 \* host.BlobChunk is raised when the registry asks for bigger chunks
 Adjust(m) == IF m > 0 /\ ((hostChunk > 0 /\ m > hostChunk) \/ (hostChunk <= 0 /\ m > DefChunk))
@@ -164,14 +179,15 @@ MountR ==
      ELSE IF rsp.st = 202 /\ rsp.loc # NoURL
      THEN putURL' = rsp.loc /\ pc' = "tryput" /\ UNCHANGED <<result, retD>>
      ELSE pc' = "post" /\ UNCHANGED <<putURL, result, retD>>
-  /\ UNCHANGED <<cf, rdPos, readOnce, hvars, bufBytes, bufCap, bufStart, chunkStart, chunkSize,
+  /\ CloseIf2xx
+  /\ UNCHANGED <<cf, rdPos, readOnce, req, rsp, ret, tries, bufBytes, bufCap, bufStart, chunkStart, chunkSize,
                  finalChunk, retryCur, chunkURL, hashed, svars, tmpFile>>
 
 \* blobGetUploadURL
 Post ==
   /\ pc = "post"
   /\ Send(Request("POST", NoURL, FALSE, 0, <<>>, NoDig), "post_r")
-  /\ UNCHANGED <<cf, cvars, lvars, svars, tmpFile>>
+  /\ UNCHANGED <<cf, cvars, boCur, boReset, lvars, svars, tmpFile>>
 
 PostR ==
   /\ pc = "post_r"
@@ -179,7 +195,8 @@ PostR ==
      THEN /\ hostChunk' = Adjust(rsp.min) /\ putURL' = rsp.loc /\ pc' = "tryput"
           /\ UNCHANGED <<result>>
      ELSE Fail /\ UNCHANGED <<hostChunk, putURL>>     \* no session to cancel
-  /\ UNCHANGED <<cf, rdPos, readOnce, retD, hvars, bufBytes, bufCap, bufStart, chunkStart, chunkSize,
+  /\ CloseIf2xx
+  /\ UNCHANGED <<cf, rdPos, readOnce, retD, req, rsp, ret, tries, bufBytes, bufCap, bufStart, chunkStart, chunkSize,
                  finalChunk, retryCur, chunkURL, hashed, svars, tmpFile>>
 
 TryPut ==
@@ -203,25 +220,29 @@ FullBody ==
   /\ IF DSize = 0
      THEN \* empty blob: bodyFunc = nil
           /\ Send(Request("PUT", putURL, FALSE, 0, <<>>, DDig), "full_r")
-          /\ UNCHANGED <<rdPos, readOnce>>
+          /\ UNCHANGED <<rdPos, readOnce, boCur>>
      ELSE IF readOnce /\ ~cf.seek
      THEN \* "blob source is not a seeker", ErrNotRetryable
-          /\ pc' = "full_fail" /\ UNCHANGED <<rdPos, readOnce, req, rsp, ret, tries>>
+          /\ pc' = "full_fail" /\ UNCHANGED <<rdPos, readOnce, req, rsp, ret, tries, boCur>>
      ELSE LET from == IF readOnce THEN 0 ELSE rdPos      \* Seek(0) on re-use
               body == SubSeq(Src, from + 1, cf.len)
           IN /\ rdPos' = cf.len /\ readOnce' = TRUE
              /\ IF Len(body) # DSize
-                THEN \* http transport: "ContentLength=N with Body length M", nothing reaches the server
-                     pc' = "full_fail" /\ UNCHANGED <<req, rsp, ret, tries>>
-                ELSE Send(Request("PUT", putURL, FALSE, 0, body, DDig), "full_r")
-  /\ UNCHANGED <<cf, putURL, result, retD, lvars, svars, tmpFile>>
+                THEN \* http transport: "ContentLength=N with Body length M", nothing reaches the server.
+                     \* Each try is a failure for the back-off counter; a seekable source is retried
+                     \* until the counter reaches the limit, the other one fails on its second read.
+                     /\ pc' = "full_fail" /\ UNCHANGED <<req, rsp, ret, tries>>
+                     /\ boCur' = IF cf.seek /\ boCur + 1 < HttpRetries THEN HttpRetries ELSE boCur + 1
+                ELSE Send(Request("PUT", putURL, FALSE, 0, body, DDig), "full_r") /\ UNCHANGED boCur
+  /\ UNCHANGED <<cf, putURL, result, retD, boReset, lvars, svars, tmpFile>>
 
 FullR ==
   /\ pc = "full_r"
   /\ IF rsp.st \in {201, 204}
      THEN result' = "ok" /\ retD' = [dig |-> DDig, size |-> DSize] /\ pc' = "done"
      ELSE pc' = "full_fail" /\ UNCHANGED <<result, retD>>
-  /\ UNCHANGED <<cf, putURL, rdPos, readOnce, hvars, lvars, svars, tmpFile>>
+  /\ CloseIf2xx
+  /\ UNCHANGED <<cf, putURL, rdPos, readOnce, req, rsp, ret, tries, lvars, svars, tmpFile>>
 
 \* BlobPut: fall back to chunked only after a successful rewind, else cancel
 FullFail ==
@@ -278,7 +299,7 @@ Slice ==
 PatchSend ==
   /\ pc = "patch"
   /\ Send(Request("PATCH", chunkURL, FALSE, chunkStart, SubSeq(bufBytes, 1, chunkSize), NoDig), "patch_r")
-  /\ UNCHANGED <<cf, cvars, lvars, svars, tmpFile>>
+  /\ UNCHANGED <<cf, cvars, boCur, boReset, lvars, svars, tmpFile>>
 
 \* take offset and next location from a reply
 Advance(r) ==
@@ -288,12 +309,15 @@ Advance(r) ==
 
 PatchR ==
   /\ pc = "patch_r"
-  /\ CASE rsp.st = 201 ->                      \* early accept, continue as for 202
+  /\ IF rsp.st = 0 THEN NoClose ELSE CloseReset     \* resp.Close() also after an error status
+  /\ CASE rsp.st = 0 ->                        \* no http response at all: "failed to send blob (chunk)"
+            pc' = "cancel" /\ UNCHANGED <<retryCur, chunkStart, chunkURL, req, ret, rsp, tries>>
+       [] rsp.st = 201 ->                      \* early accept, continue as for 202
             Advance(rsp) /\ UNCHANGED <<retryCur, req, ret, rsp, tries>>
        [] rsp.st # 201 /\ rsp.st >= 400 /\ rsp.st < 500 /\ rsp.loc # NoURL /\ rsp.rng # NoRng ->
             \* "recoverable chunk upload error": no limit is checked on this path
             retryCur' = retryCur + 1 /\ Advance(rsp) /\ UNCHANGED <<req, ret, rsp, tries>>
-       [] rsp.st \notin {201, 202} /\ ~(rsp.st >= 400 /\ rsp.st < 500 /\ rsp.loc # NoURL /\ rsp.rng # NoRng) ->
+       [] rsp.st \notin {0, 201, 202} /\ ~(rsp.st >= 400 /\ rsp.st < 500 /\ rsp.loc # NoURL /\ rsp.rng # NoRng) ->
             \* ask for the status of the upload
             /\ retryCur' = retryCur + 1
             /\ Send(Request("GET", chunkURL, FALSE, 0, <<>>, NoDig), "status_r")
@@ -307,7 +331,8 @@ StatusR ==
   /\ IF retryCur > RetryLimit \/ rsp.st # 204
      THEN pc' = "cancel" /\ UNCHANGED <<chunkStart, chunkURL>>
      ELSE Advance(rsp)
-  /\ UNCHANGED <<cf, cvars, hvars, hostChunk, bufBytes, bufCap, bufStart, chunkSize, finalChunk, retryCur, hashed, svars, tmpFile>>
+  /\ CloseIf2xx
+  /\ UNCHANGED <<cf, cvars, req, rsp, ret, tries, hostChunk, bufBytes, bufCap, bufStart, chunkSize, finalChunk, retryCur, hashed, svars, tmpFile>>
 
 \* digest and size checks, then the closing PUT
 Verify ==
@@ -317,33 +342,41 @@ Verify ==
      ELSE /\ retD' = [dig |-> H(hashed), size |-> chunkStart]
           /\ chunkURL' = [chunkURL EXCEPT !.dg = @ + 1]
           /\ req' = Request("PUT", chunkURL', FALSE, 0, <<>>, H(hashed)) /\ ret' = "final_r" /\ pc' = "srv"
-  /\ UNCHANGED <<cf, putURL, rdPos, readOnce, result, rsp, tries, hostChunk, bufBytes, bufCap, bufStart,
+  /\ UNCHANGED <<cf, putURL, rdPos, readOnce, result, rsp, tries, boCur, boReset, hostChunk, bufBytes, bufCap, bufStart,
                  chunkStart, chunkSize, finalChunk, retryCur, hashed, svars, tmpFile>>
 
 FinalR ==
   /\ pc = "final_r"
   /\ IF rsp.st \in {201, 204} THEN result' = "ok" /\ pc' = "done" ELSE pc' = "cancel" /\ UNCHANGED result
-  /\ UNCHANGED <<cf, putURL, rdPos, readOnce, retD, hvars, lvars, svars, tmpFile>>
+  /\ CloseIf2xx
+  /\ UNCHANGED <<cf, putURL, rdPos, readOnce, retD, req, rsp, ret, tries, lvars, svars, tmpFile>>
 
 \* BlobPut: _ = reg.blobUploadCancel(ctx, r, putURL) -- the URL of the POST reply, not chunkURL
 Cancel ==
   /\ pc = "cancel"
   /\ Send(Request("DELETE", putURL, FALSE, 0, <<>>, NoDig), "cancel_r")
-  /\ UNCHANGED <<cf, cvars, lvars, svars, tmpFile>>
+  /\ UNCHANGED <<cf, cvars, boCur, boReset, lvars, svars, tmpFile>>
 
 CancelR ==
   /\ pc = "cancel_r"
   /\ Fail
-  /\ UNCHANGED <<cf, putURL, rdPos, readOnce, retD, hvars, lvars, svars, tmpFile>>
+  /\ CloseIf2xx
+  /\ UNCHANGED <<cf, putURL, rdPos, readOnce, retD, req, rsp, ret, tries, lvars, svars, tmpFile>>
 
 \* ------------------------------------------------------------------ reghttp
-\* retry the same request on a retryable failure (not for the mount: IgnoreErr drops the host)
+\* retry the same request on a retryable failure.  Not for the mount (IgnoreErr drops the host and
+\* sets no back-off), and not once the host's back-off counter has reached the limit.
 Http ==
   /\ pc = "http"
-  /\ IF rsp.st = 500 /\ tries < HttpRetries /\ ret # "mount_r"
-     THEN tries' = tries + 1 /\ pc' = (IF ret = "full_r" THEN "full_body" ELSE "srv")
-     ELSE tries' = 0 /\ pc' = ret
-  /\ UNCHANGED <<cf, cvars, req, rsp, ret, lvars, svars, tmpFile>>
+  /\ LET ign  == ret = "mount_r"
+         bo   == rsp.st \in {0, 500, 503, 400, 413} /\ ~ign      \* all failures but 404 and 416
+         cur  == IF bo THEN boCur + 1 ELSE boCur                 \* backoffSet
+         drop == rsp.st \notin {0, 500} \/ ign \/ cur >= HttpRetries
+     IN /\ boCur' = cur
+        /\ IF ~Is2xx(rsp.st) /\ ~drop /\ tries < HttpRetries
+           THEN tries' = tries + 1 /\ pc' = (IF ret = "full_r" THEN "full_body" ELSE "srv")
+           ELSE tries' = 0 /\ pc' = ret
+  /\ UNCHANGED <<cf, cvars, req, rsp, ret, boReset, lvars, svars, tmpFile>>
 
 \* ------------------------------------------------------------------- server
 Faults(kinds) == IF nFault < MaxFaults THEN {C(a) : a \in kinds} ELSE {}
@@ -353,7 +386,7 @@ MinStop == cf.enforce /\ sess.short /\ Len(req.body) > 0
 SrvChoices ==
   CASE req.m = "POST" /\ req.mount ->
          {C("decline"), C("error")} \cup (IF req.dig \in Avail THEN {C("accept")} ELSE {})
-    [] req.m = "POST" /\ ~req.mount -> {C("ok")} \cup Faults({"f500l", "f503l"})
+    [] req.m = "POST" /\ ~req.mount -> {C("ok")} \cup Faults({"f500l", "f503l", "rstl"})
     [] req.m = "PATCH" ->
          IF ~InOrder \/ MinStop THEN {C("ok")}
          ELSE {C("ok")}
@@ -361,20 +394,20 @@ SrvChoices ==
               \cup (IF nPartial < MaxPartial /\ cf.part
                     THEN {[a |-> "partial", k |-> k, via |-> v] : k \in 1..(Len(req.body) - 1), v \in {"202", "416", "416bare"}}
                     ELSE {})
-              \cup Faults({"f500l", "f503l"})
+              \cup Faults({"f500l", "f503l", "rstl"})
               \cup (IF nFault < MaxFaults
-                    THEN {[a |-> f, k |-> k, via |-> ""] : f \in {"f500a", "f503a"}, k \in 1..Len(req.body)}
+                    THEN {[a |-> f, k |-> k, via |-> ""] : f \in {"f500a", "f503a", "rsta"}, k \in 1..Len(req.body)}
                     ELSE {})
     [] req.m = "PUT" ->
          IF ~(sess.open /\ TokOK(req.url)) \/ MinStop THEN {C("ok")}
          ELSE {C("ok")} \cup (IF Len(req.body) > 0 /\ ~refused /\ cf.refuse THEN {C("refuse")} ELSE {})
-              \cup Faults({"f500l", "f503l", "f500a", "f503a"})
-    [] req.m = "GET" -> {C("ok")} \cup (IF sess.open THEN Faults({"f500l", "f503l"}) ELSE {})
+              \cup Faults({"f500l", "f503l", "rstl", "f500a", "f503a", "rsta"})
+    [] req.m = "GET" -> {C("ok")} \cup (IF sess.open THEN Faults({"f500l", "f503l", "rstl"}) ELSE {})
     [] OTHER -> {C("ok")}
 
-FaultSt(a) == IF a \in {"f500l", "f500a"} THEN 500 ELSE 503
-IsFault(a) == a \in {"f500l", "f500a", "f503l", "f503a"}
-Applied(a) == a \in {"f500a", "f503a"}
+FaultSt(a) == IF a \in {"f500l", "f500a"} THEN 500 ELSE IF a \in {"rstl", "rsta"} THEN 0 ELSE 503
+IsFault(a) == a \in {"f500l", "f500a", "f503l", "f503a", "rstl", "rsta"}
+Applied(a) == a \in {"f500a", "f503a", "rsta"}
 SessReply(st, s) == Reply(st, LocOf(s.tok), Len(s.data) - 1, 0)
 Commit(d, c) == (d :> c) @@ blobs
 
@@ -464,7 +497,7 @@ Serve(c) ==
        [] req.m = "PUT" -> ServePut(c)
        [] req.m = "GET" -> ServeGet(c)
        [] OTHER -> ServeDelete(c)
-  /\ UNCHANGED <<cf, cvars, req, ret, tries, lvars, tmpFile>>
+  /\ UNCHANGED <<cf, cvars, req, ret, tries, boCur, boReset, lvars, tmpFile>>
 
 \* --------------------------------------------------- scheme/ocidir BlobPut
 OCopy ==
